@@ -134,6 +134,49 @@ for notes in ('PBE-D3 400eV 2019 run 12', 'abcdefgh', 'x y'):
                            "abs(pm.io.thermdat._read_line1(result)['T_mid'] - nasa_specie.T_mid) <= 0.05")],
                  cross_check=False)
 
+# zero counts are not written: the elements listed after a zero entry keep their columns (first, middle and last position)
+for zero_at, els in ((0, ((1, 1), (1, 1))), (1, ((1, 1), (2, 2), (1, 2))), (2, ((2, 1), (1, 1), (1, 1)))):
+    el_specs = []
+    for k, (sl, cd) in enumerate(els):
+        el_specs.append((sym(sl), Const(0) if k == zero_at else count(cd)))
+    sp_zero = Fields(NASA, name=nm(4), phase=Const('G'), elements=DictOfTokens(el_specs), notes=Const(None),
+                     T_low=Real(100., 999.), T_high=Real(1000., 9999.), T_mid=Real(100., 999.), a_low=RealVec(7, -1e3, 1e3),
+                     a_high=RealVec(7, -1e3, 1e3))
+    contract(TH + '_write_line1', P, label='zero-count-at-%d,elements=%s' % (zero_at, '+'.join('%dc%dd' % e for e in els)), options=OPT,
+             args=dict(nasa_specie=sp_zero, write_date=Const(False)),
+             requires=TREQ + ['all(a != b for i, a in enumerate(nasa_specie.elements.keys()) '
+                              'for j, b in enumerate(nasa_specie.elements.keys()) if i < j)'],
+             ensures=[('81-characters-with-newline', 'len(result) == 81 and result[80] == "\\n"'),
+                      ('phase-in-column-45', 'result[44] == nasa_specie.phase'),
+                      ('reads-back-composition-without-the-zero-entry',
+                       "spec.thermdat.same_composition(pm.io.thermdat._read_line1(result)['elements'], nasa_specie.elements)")],
+             cross_check=False)
+# supplementary records and comment text: each block ends with a line break of its own, alone and together
+SUPP = ('H2O             20180216C   0O   1H   2N   0G      200.     1600.     600.     1\n'
+        '   3.777500E+00   4.035551E-04   1.270792E-06  -5.322476E-10   4.346199E-14    2\n'
+        '  -3.023592E+04   1.025161E+00   4.185821E+00  -1.877402E-03   5.812323E-06    3\n'
+        '  -4.838293E-09   1.417686E-12  -3.020729E+04  -7.944847E-02                   4')
+for d_nl in ('', '\n'):
+    for t_nl in ('', '\n'):
+        for which in ('data', 'txt', 'both'):
+            kw = {}
+            if which in ('data', 'both'):
+                kw['supp_data'] = Const(SUPP + d_nl)
+            if which in ('txt', 'both'):
+                kw['supp_txt'] = Const('!comment one\n!comment two' + t_nl)
+            if (which == 'data' and t_nl) or (which == 'txt' and d_nl):
+                continue
+            lines = ['THERMO ALL', '       100       500      1500'] + (SUPP.split('\n') if 'supp_data' in kw else []) + \
+                (['!comment one', '!comment two'] if 'supp_txt' in kw else [])
+            contract(TH + 'write_thermdat', P, label='supplement=%s,newline-after-data=%r,after-text=%r' % (which, d_nl, t_nl), options=OPT,
+                     args=dict(nasa_species=ListOf([species(4, ((1, 1),), coeff_lo=0.)]), write_date=Const(False), **kw),
+                     requires=[r.replace('nasa_specie', 'nasa_species[0]') for r in TREQ] +
+                              ['all(v >= 0 for v in nasa_species[0].a_low) and all(v >= 0 for v in nasa_species[0].a_high)'],
+                     ensures=[('header-and-supplements-on-lines-of-their-own', 'result.split("\\n")[:%d] == %r' % (len(lines), lines)),
+                              ('then-the-species-records', 'result.split("\\n")[%d] == pm.io.thermdat._write_line1(nasa_species[0], False)[:-1] and '
+                                                           'len(result.split("\\n")) == %d and result.split("\\n")[-1] == "END"' % (len(lines), len(lines) + 5))],
+                     cross_check=False)
+
 # ---- whole files: write_thermdat then read_thermdat ------------------------------------------------
 def file_of(**kw):
     return WrittenFile(TH + 'write_thermdat', {'nasa_species': 'species'}, write_date=False, **kw)
